@@ -12,6 +12,7 @@ import (
 	"encoding/json"
 	"flag"
 	"fmt"
+	"go/ast"
 	"go/parser"
 	"go/token"
 	"os"
@@ -27,6 +28,8 @@ type desc struct {
 	Focus   []string            `json:"focus"`   // package dirs whose "sync" import becomes vsync (scheduling points)
 	Quiet   []string            `json:"quiet"`   // package dirs (or "*") whose "sync" import becomes vsyncq
 	Rewrite map[string][]string `json:"rewrite"` // file or dir -> ["old=new", ...] extra import rewrites
+	// MapRange: file -> names of map variables whose `for k, v := range name` loops iterate in an order owned by pkg/vrange.
+	MapRange map[string][]string `json:"maprange"`
 }
 
 const mod = "github.com/influxdata/influxdb"
@@ -140,6 +143,14 @@ func main() {
 			}
 		}
 	}
+	mapRange := map[string][]string{}
+	for target, vars := range d.MapRange {
+		f := filepath.Join(*repo, target)
+		mapRange[f] = vars
+		if rw[f] == nil {
+			rw[f] = map[string]string{}
+		}
+	}
 	var names []string
 	for f := range rw {
 		names = append(names, f)
@@ -154,6 +165,15 @@ func main() {
 		outSrc, changed, err := rewriteImports(f, src, rw[f])
 		if err != nil {
 			fatal("%s: %v", f, err)
+		}
+		if names := mapRange[f]; len(names) > 0 {
+			o2, c2, err := rewriteMapRanges(f, outSrc, names)
+			if err != nil {
+				fatal("%s: %v", f, err)
+			}
+			if c2 {
+				outSrc, changed = o2, true
+			}
 		}
 		if !changed {
 			continue
@@ -209,6 +229,58 @@ func rewriteImports(name string, src []byte, rules map[string]string) ([]byte, b
 	if len(edits) == 0 {
 		return src, false, nil
 	}
+	sort.Slice(edits, func(i, j int) bool { return edits[i].start > edits[j].start })
+	out := append([]byte{}, src...)
+	for _, e := range edits {
+		out = append(out[:e.start], append([]byte(e.text), out[e.end:]...)...)
+	}
+	return out, true, nil
+}
+
+// rewriteMapRanges turns `for k, v := range NAME {` (NAME in names) into an
+// iteration over vrange.Keys(NAME) on the same line and adds the import next
+// to the first existing import. Loops that do not match are left alone.
+func rewriteMapRanges(name string, src []byte, names []string) ([]byte, bool, error) {
+	fset := token.NewFileSet()
+	f, err := parser.ParseFile(fset, name, src, 0)
+	if err != nil {
+		return nil, false, err
+	}
+	want := map[string]bool{}
+	for _, n := range names {
+		want[n] = true
+	}
+	type edit struct {
+		start, end int
+		text       string
+	}
+	var edits []edit
+	ast.Inspect(f, func(n ast.Node) bool {
+		rs, ok := n.(*ast.RangeStmt)
+		if !ok || rs.Tok != token.DEFINE {
+			return true
+		}
+		x, ok := rs.X.(*ast.Ident)
+		if !ok || !want[x.Name] {
+			return true
+		}
+		k, ok1 := rs.Key.(*ast.Ident)
+		v, ok2 := rs.Value.(*ast.Ident)
+		if !ok1 || !ok2 || k.Name == "_" {
+			return true
+		}
+		start := fset.Position(rs.For).Offset
+		end := fset.Position(rs.Body.Lbrace).Offset + 1
+		text := fmt.Sprintf("for _, %s := range vrange.Keys(%s) { %s := %s[%s]; _ = %s;", k.Name, x.Name, v.Name, x.Name, k.Name, v.Name)
+		edits = append(edits, edit{start, end, text})
+		return true
+	})
+	if len(edits) == 0 || len(f.Imports) == 0 {
+		return src, false, nil
+	}
+	im := f.Imports[0]
+	pos := fset.Position(im.End()).Offset
+	edits = append(edits, edit{pos, pos, "; vrange " + strconv.Quote(mod+"/pkg/vrange")})
 	sort.Slice(edits, func(i, j int) bool { return edits[i].start > edits[j].start })
 	out := append([]byte{}, src...)
 	for _, e := range edits {
